@@ -8,9 +8,26 @@ HERE = os.path.dirname(os.path.dirname(os.path.abspath(__file__)))
 TECH = "bounded symbolic execution of the real source (import-hook proxies) with z3 deciding every branch and assertion; counterexamples replayed on the pristine code"
 
 CHECKS = {
-    "C01": ("§6 C01", "All histories of <=2 (quick) / <=3 (thorough) write requests over the full alphabet on a pool of 3 LRUs with symbolic stem bytes: "
-            "every feasible comparison outcome (hence every sibling-BST shape) is explored and the page enumeration, counts, crawled marks and "
-            "report figures are proved equal to the reference model for all byte values on each path."),
+    "C01": ("§6 C01", "Every history of <=2 (quick) / <=3 (thorough) write requests over the full request alphabet on a pool of LRUs with symbolic stem bytes: all feasible comparison outcomes (hence all sibling-BST shapes and nestings) are explored; page enumeration, counts, crawled marks and report figures are decided equal to the reference model for all byte values on each path."),
+    "C02": ("§6 C02", "For every bounded history and every stem-prefix of every pool LRU plus a never-inserted LRU: top-down lookup succeeds iff the prefix was named, bottom-up reconstruction and full traversal return the submitted bytes (validity queries over symbolic bytes), and the raw blocks satisfy the ternary-search-tree invariants (strict BST order decided by the solver on symbolic stems, single reference, parent pointers, tail chains). Stem lengths 74/75/148/149/222 bytes included."),
+    "C03": ("§6 C03", "All bounded histories of add_links / index_batch_crawl interleaved with page and webentity writes: out-weight = in-weight = submissions for every ordered pair, self-links internal once, total count, both enumerations (transposes), degree helpers, for all 8 switch combinations of get_page_links."),
+    "C04": ("§6 C04", "All bounded histories of webentity creations, deletions, prefix additions, removals and moves: resolution of every pool LRU, every stem-prefix, an extension by a fresh symbolic stem and a fresh LRU equals the longest attached stem-prefix of the reference model; refusals exactly when a prefix is already attached."),
+    "C05": ("§6 C05", "All bounded histories plus state templates: each webentity's page list (both prefix orders, crawled-only variant) equals the pages that resolve to it in the model, no duplicates, nested webentities excluded, union covers every resolving page."),
+    "C06": ("§6 C06", "Configurations (default rule x anchored rule from Hyphe's family) x typed symbolic LRUs x insertion histories: creation iff K longer than E, created prefix set = K plus free variations (structural oracle independent of any regex engine), potential prefix = max(E,K) with byte-identical stores before/after, rule installation = re-insertion of the pages beneath the anchor."),
+    "C07": ("§6 C07", "All bounded states (free histories and templates): webentity network weights = page links pushed through model resolution, include_auto on/off, inbound = transpose, memory-light variant equal, crawled/uncrawled tallies."),
+    "C08": ("§6 C08", "All bounded states and every alive webentity: pagelinks for the 7 switch combinations (8th refused), cited/citing sets, degree helpers, against the model's link multiset filtered by membership."),
+    "C09": ("§6 C09", "All bounded states, page sizes, crawled-only on/off, prefix orders and one insertion between calls at any position: completeness, no repeat, no skip, order (solver-checked < on symbolic LRUs), page size, done flag, counts; token codec round-trip decided over bit-vectors for all paths up to 12 base-64 digits."),
+    "C10": ("§6 C10", "All subsets of link-bearing pages over two prefixes (template) and bounded free histories: paginated union = unpaginated answer, exact source-page count per non-final answer, every issued token resumes without any exception."),
+    "C11": ("§6 C11", "Twin indexes driven in lockstep on the in-memory file system, one closed/reopened (rules re-supplied) or cleared at any position: every observation of a read battery equal, file sizes whole blocks, final store bytes identical."),
+    "C12": ("§6 C12", "All bounded histories of explicit/automatic creations, deletions, rule installations, reopen and clear: every issued id exceeds all ids issued since creation/clear, one id per request, ids equal the model's sequence."),
+    "C13": ("§6 C13", "All bounded histories that create unmarked paths first and attach prefixes later by every route: child and parent webentity sets equal the model's sets at any depth."),
+    "C14": ("§6 C14", "State templates x every read-only API call with its switch combinations and arguments (pool LRUs, absent LRUs, unknown webentity): both stores byte-identical before and after every call, answered or refused, memory and file back-ends."),
+    "C15": ("§6 C15", "Memory and file index driven in lockstep over symbolic configurations (default rule, anchored rule, overwrite) and histories, multi-block stems included: identical outcomes/answers/exceptions, identical final store bytes, memory-mapped reader returns every block."),
+    "C16": ("§6 C16", "Every schedule of 2-3 generator requests with every loop iteration a yield point: no request fails, final pages/links = sequential application, in/out symmetry, each query answer between what qualified throughout and what qualified at some moment (atomic snapshots at every step)."),
+    "C17": ("§6 C17", "Every LRU of the stated shape within the bounds (0-3 hosts, path stems up to 8 symbolic bytes): no exception, input first, pairwise distinct, only scheme/www changes (validity over symbolic bytes), closure of the class; automatic creation independent of which variation is seen first."),
+    "C18": ("§6 C18", "Every cut of the program-ordered write log of every bounded history, with the number of persisted bytes of a torn append a symbolic integer: open refuses with the library's error or the index is traversable and reports a subset of the completed history."),
+    "C19": ("§6 C19", "All bounded histories with stems of 74/75/148/149/222 bytes: trie blocks = 1 + sum of ceil(len/74) over named stem-prefixes, link blocks = 1 + 2 x submissions, every block referenced, metrics equal the model, re-submission grows nothing."),
+    "C20": ("§6 C20", "State templates and bounded histories x k x depth limit: size, membership, order, exact indegree by distinct sources, top-k optimality. The one deviation pinned by the repository's suite (indegree 1 for unlinked pages) is a listed known finding; everything else is checked behind it."),
 }
 
 NOTE = ("Trusted base: z3 (unsat answers), the proxy/shim layer (differentially self-tested against struct/bytearray/re at every run and "
